@@ -245,9 +245,10 @@ fn random_cases(ctx: &mut Ctx, count: usize, max_size: usize, tag: u64, mut f: i
         }
         let mut rng = Rng::new(ctx.seed ^ tag.wrapping_mul(0x1000193) ^ (i as u64).wrapping_mul(0x9E3779B97F4A7C15));
         let fam = FAMILIES[i % FAMILIES.len()];
-        let size = 1 + rng.below(max_size);
+        // every tenth case just above 100 items per side (where a caller-side "map big inputs to integers first" step would sit)
+        let size = if i % 10 == 7 { 101 + rng.below(80) } else { 1 + rng.below(max_size) };
         let (old, new) = gen::gen_pair(&mut rng, fam, size);
-        let alg = ALGS[rng.below(3)];
+        let alg = if i % 10 == 7 { ALGS[rng.below(2)] } else { ALGS[rng.below(3)] };
         // LCS is quadratic in space and time: keep it small
         let (old, new) = if alg == Algorithm::Lcs && old.len() + new.len() > 120 {
             (old[..old.len().min(60)].to_vec(), new[..new.len().min(60)].to_vec())
@@ -533,18 +534,25 @@ pub fn suite_raw(ctx: &mut Ctx) {
     // implementation only: large DISJOINT middles (cheap for every algorithm) of unequal lengths between shared ends, full
     // ranges and sub-ranges with differing starts -- beyond any table / work size at which one algorithm might hand over to
     // another; the raw stream must still be a valid, gap-free script (and minimal for Myers / LCS: everything but the ends changes)
-    let sizes: &[(usize, usize)] = if ctx.tier == Tier::Quick { &[(1100, 1030), (4200, 4100), (6000, 6003)] } else { &[(1100, 1030), (3300, 3400), (4200, 4100), (6000, 6003), (10_001, 9_000)] };
+    let sizes: &[(usize, usize)] = if ctx.tier == Tier::Quick { &[(1100, 1030), (4200, 4100), (6000, 6003), (9000, 8000)] } else { &[(1100, 1030), (3300, 3400), (4200, 4100), (6000, 6003), (9000, 8000), (10_001, 9_000), (5, 1 << 24)] };
     for &(mo, mn) in sizes {
-        for (h, t) in [(3usize, 3usize), (0, 2), (2, 0)] {
+        for (h, t) in [(3usize, 3usize), (0, 2), (2, 0), (1, 1)] {
             for alg in ALGS {
-                if mo > 7000 && alg != Algorithm::Lcs {
+                if mo.max(mn) > 7000 && alg != Algorithm::Lcs {
                     continue;
                 }
                 if !ctx.take() {
                     continue;
                 }
-                let old: Vec<u32> = (0..h as u32).map(|i| 10 + i).chain((0..mo as u32).map(|i| 1_000_000 + i)).chain((0..t as u32).map(|i| 50 + i)).collect();
-                let new: Vec<u32> = (0..h as u32).map(|i| 10 + i).chain((0..mn as u32).map(|i| 2_000_000 + i)).chain((0..t as u32).map(|i| 50 + i)).collect();
+                let mut old: Vec<u32> = (0..h as u32).map(|i| 10 + i).chain((0..mo as u32).map(|i| 1_000_000 + i)).chain((0..t as u32).map(|i| 50 + i)).collect();
+                let mut new: Vec<u32> = (0..h as u32).map(|i| 10 + i).chain((0..mn as u32).map(|i| 100_000_000 + i)).chain((0..t as u32).map(|i| 50 + i)).collect();
+                // (h, t) = (1, 1): ALMOST disjoint -- the second item of both middles is one common item, so the shortest
+                // script keeps it (giving the whole middle up is valid but not minimal)
+                let shared_mid = if (h, t) == (1, 1) { 1 } else { 0 };
+                if shared_mid == 1 {
+                    old[h + 1] = 77;
+                    new[h + 1] = 77;
+                }
                 let mut c = Case::full(alg, &old, &new);
                 if (h + t) % 2 == 1 {
                     c.o_off = 4;
@@ -573,8 +581,8 @@ pub fn suite_raw(ctx: &mut Ctx) {
                     ctx.violation("C01", &req, e);
                 }
                 let (d, i, e) = oracle::cost(&calls);
-                if alg != Algorithm::Patience && (d + i != mo + mn || e != h + t) {
-                    ctx.violation("C03", &req, format!("deleted+inserted = {} but N+M-2L = {}", d + i, mo + mn));
+                if alg != Algorithm::Patience && (d + i != mo + mn - 2 * shared_mid || e != h + t + shared_mid) {
+                    ctx.violation("C03", &req, format!("deleted+inserted = {} but N+M-2L = {}", d + i, mo + mn - 2 * shared_mid));
                 }
             }
         }
@@ -802,6 +810,46 @@ pub fn suite_cap(ctx: &mut Ctx) {
         ctx.emit(&req, &cap.show());
         check_cap(ctx, &c, &cap, &req);
         ctx.count("cap.echo_cases");
+    }
+    // implementation only: BIG FRAGMENTED diffs (thousands of ops, about half of them changes) with no deadline and under a
+    // deadline that never expires -- the two must give the very same ops (C07), in normal form (C09), valid (C02)
+    let nfrag = if ctx.tier == Tier::Quick { 2 } else { 8 };
+    for k in 0..nfrag {
+        for alg in [Algorithm::Myers, Algorithm::Patience] {
+            if !ctx.take() {
+                continue;
+            }
+            let mut rng = Rng::new(ctx.seed ^ 0xf4a6 ^ (k as u64) << 8);
+            let n = 4500 + rng.below(2500);
+            let old: Vec<u32> = (0..n).map(|_| rng.below(4) as u32).collect();
+            let mut new = old.clone();
+            for _ in 0..n / 3 {
+                let at = rng.below(new.len());
+                match rng.below(3) {
+                    0 => {
+                        new.remove(at);
+                    }
+                    1 => new.insert(at, rng.below(4) as u32),
+                    _ => new[at] = rng.below(4) as u32,
+                }
+            }
+            let c = Case::full(alg, &old, &new);
+            let req = format!("capture {} - 0 | <{} items over 4 symbols> | <the same after {} random edits> | 0 {} 0 {}", alg_name(alg), n, n / 3, old.len(), new.len());
+            let plain = run_capture(&c);
+            check_cap(ctx, &c, &plain, &req);
+            let mut never = c.clone();
+            never.dl = Some(u64::MAX / 2);
+            let with_dl = run_capture(&never);
+            ctx.count("cap.big_fragmented_cases");
+            ctx.max("cap.big_fragmented_max_ops", plain.ops.as_ref().map_or(0, |o| o.len()) as u64);
+            if with_dl.ops != plain.ops {
+                let msg = format!("under a deadline that never expires capture_diff_deadline returns {} ops, without a deadline {} ops", with_dl.ops.as_ref().map_or(0, |o| o.len()), plain.ops.as_ref().map_or(0, |o| o.len()));
+                ctx.violation("C07", &req, msg.clone());
+                let mut reqd = req.clone();
+                reqd = reqd.replacen(" - 0 |", &format!(" {} 0 |", u64::MAX / 2), 1);
+                check_cap(ctx, &never, &with_dl, &reqd);
+            }
+        }
     }
     // one Myers call whose ranges are more than 8192 edits apart (implementation only: the validators
     // decide, the model is not run at this size)
